@@ -29,6 +29,9 @@ func (t *loopTr) expr(e ast.Expr) (string, lkind) {
 	case *ast.Ident:
 		return t.ident(x)
 	case *ast.SelectorExpr:
+		if v, k, ok := t.keyExpr(x); ok {
+			return v, k // stage 13 (loops_key.go): X.Params().N
+		}
 		// e.Offset for an e bound by errors.As
 		if id, ok := unparen(x.X).(*ast.Ident); ok {
 			if src := t.asBound[t.objOf(id)]; src != nil {
